@@ -206,3 +206,29 @@ Proof.
   intros W P. apply prefix_no_panic. unfold table_wf in W. apply andb_true_iff in W as [W _].
   apply forallb_forall. intros p Hp. rewrite forallb_forall in W. apply W. eapply Permutation_in; eauto.
 Qed.
+
+(* ------------------------------------------------------------------ the negative forms *)
+Lemma registered_live ops ph id r : registered ops ph id r -> validated_live ops ph id.
+Proof. intros (_ & H & _). exact H. Qed.
+
+Lemma top_never_min ops ph data :
+  ~ validated_live ops ph (take min_tag_len data) ->
+  forall r c, wrap_min (get_regs (run ops) ph) data <> Found r c.
+Proof. intros N r c H. apply top_found_min in H as (_ & _ & H). apply N. eapply registered_live; eauto. Qed.
+
+Lemma top_never_prefix reveal order keys ops ph data :
+  (forall p k id, In p order -> In k keys -> reveal k (tag_at p data) = Some id -> ~ validated_live ops ph id) ->
+  forall r c, wrap_prefix_ord reveal order keys (get_regs (run ops) ph) data <> Found r c.
+Proof.
+  intros N r c H. apply top_found_prefix in H as (p & k & id & Hp & Hk & _ & _ & _ & R & Hr & _).
+  eapply N; eauto using registered_live.
+Qed.
+
+Lemma top_never_obfs4 mark hs order ops ph data :
+  incl order (get_regs (run ops) ph) ->
+  (forall id, mark_window data = mark id (take o_rep_len data) -> ~ validated_live ops ph id) ->
+  forall r c, wrap_obfs4_ord mark hs order data <> Found r c.
+Proof.
+  intros I N r c H. apply (top_found_obfs4 _ _ _ _ _ _ _ _ I) in H as (id & _ & Hr & _ & M & _).
+  eapply N; eauto using registered_live.
+Qed.
